@@ -41,7 +41,7 @@
     sanitizer_wellnested translator_wellnested
     apply_leaves_origin apply_appends_one_link history_keeps_chains
     lazy_trace_semantics trace_chain_wellnested lazy_raw_chain_wellnested
-    lazy_reader_injects_current_selection lazy_after_adjacent_selections
+    lazy_reader_injects_current_selection lazy_after_adjacent_selections stagewise_in_lazy_class
     apply_transformer_leaves_origins apply_transformer_concatenates history_mixed_keeps_chains
     apply_transformer_runs_in_sequence attr_callable_changes_only_selected substitute_map_are_map_text
     emptytag_wellnested whitespace_filter_wellnested doctype_inserter_wellnested
@@ -56,6 +56,7 @@ import Genshi.Lemmas.TfLazyAgree
 import Genshi.Lemmas.TfOther
 import Genshi.Lemmas.TfTrace
 import Genshi.Lemmas.TfTraceInv
+import Genshi.Lemmas.TfTraceSub
 import Genshi.Lemmas.TfDerive
 import Genshi.Lemmas.TfSerial
 namespace Genshi.Props.C20
@@ -624,6 +625,11 @@ theorem lazy_raw_chain_wellnested (F : Nat) (ops : List Op) (s : Stream) (hs : W
   have ht := lazy_trace F ops (fun _ => []) (markAll s) hraw
   rw [h] at ht
   exact trace_chain_wellnested ops s hs hadm hone hsel out b ht.symm
+
+/-- The new nesting theorem contains `lazy_chain_wellnested`: every `stagewise` chain satisfies both
+    buffer hypotheses (reads after writes, one writer between two barriers). -/
+theorem stagewise_in_lazy_class (ops : List Op) (h : stagewise [] [] ops = true) :
+    lazyRaw ops = true ∧ OneWriter [] ops := Genshi.Tf.stagewise_in_lazy_class ops h
 
 /-- non-vacuity: `Transformer('a').copy(b).after(b)`, the documented
     `Transformer('a').copy(b).end().select('c').prepend(b)` (no `buffer()` barrier), and a buffer read
